@@ -12,7 +12,7 @@ import itertools
 import pathlib
 from vlib import HarnessError
 
-from checks.assign_common import (ORACLE_LOG, AssignorHang, StubCluster, enc_output, enc_parts,
+from checks.assign_common import (ORACLE_LOG, AssignorHang, StubCluster, canon, enc_output, enc_parts,
                                   install_oracle_recorder, load_assignors, mname, small_space, sticky_line,
                                   tname, canon)
 
@@ -47,6 +47,48 @@ def _sticky_round(A, parts, members, prev, generation, limit_s=3.0):
         mm[mname(m)] = md
     res = with_cpu_limit(lambda: S.assign(StubCluster(parts), mm), limit_s)
     return canon(res, members)
+
+
+def sticky_round_gen(A, parts, members, prev_gen, limit_s=3.0):
+    """as _sticky_round, with a generation PER MEMBER in the user data: prev_gen = {m: (items, generation)}.
+    Not compared with the Lean port (which models single-generation user data only)."""
+    from checks.assign_common import with_cpu_limit
+    S = A["sticky"]
+    TP = A["sticky_mod"].TopicPartition
+    mm = {}
+    for m, subs in members:
+        topics = [tname(t) for t in subs]
+        if m in prev_gen:
+            items, g = prev_gen[m]
+            mm[mname(m)] = S._metadata(topics, [TP(tname(t), p) for t, ps in items for p in ps], g)
+        else:
+            mm[mname(m)] = S._metadata(topics, None)
+    res = with_cpu_limit(lambda: S.assign(StubCluster(parts), mm), limit_s)
+    return canon(res, members)
+
+
+def returning_chain(A, rng, identical):
+    """three rounds: everybody (generation 1); 1-2 members away, possibly replaced (generation 2); the absent
+    members return still reporting their generation-1 assignment while the others report generation 2.
+    Returns (parts, round-2 members, round-3 members, r2, r3).  Everybody keeps its subscription (a stale
+    claimant that is no longer subscribed is outside what the real coordinator can produce)."""
+    nt = rng.randrange(1, 4)
+    parts = [(t, list(range(rng.randrange(1, 9)))) for t in range(nt)]
+    base = list(range(nt))
+    members = [(m, base if identical else sorted(rng.sample(range(nt), rng.randrange(1, nt + 1))))
+               for m in range(rng.randrange(2, 6))]
+    r1 = sticky_round_gen(A, parts, members, {})
+    away = rng.sample(members, 1 if len(members) < 3 or rng.random() < 0.5 else 2)
+    rest = [x for x in members if x not in away]
+    for j in range(rng.randrange(0, 3)):
+        rest = rest + [(50 + j, base if identical else sorted(rng.sample(range(nt), rng.randrange(1, nt + 1))))]
+    r2 = sticky_round_gen(A, parts, rest, {m: (items, 1) for m, items in r1})
+    prev = {m: (items, 2) for m, items in r2}
+    for m, _ in away:
+        prev[m] = (dict(r1)[m], 1)
+    m3 = rest + away
+    r3 = sticky_round_gen(A, parts, m3, prev)
+    return parts, rest, m3, r2, r3
 
 
 def identical_subs(members):
@@ -193,6 +235,44 @@ def run(ctx):
         except Exception as e:  # noqa
             ctx.violation(f"sticky-raises:{type(e).__name__}", f"sticky assignor raised {e!r} after a subscription/metadata change",
                           {"cases": [{"parts": parts, "members": members}]})
+    # overlapping but different subscriptions over three small topics, then joins / a leave / subscription changes:
+    # the rounds in which the reassignment loop moves partitions in both directions between two members and the
+    # swap-avoidance of get_partition_to_be_moved matters (T-diff with the port; no stickiness clause speaks here)
+    subsets3 = [list(x) for r in (1, 2, 3) for x in itertools.combinations(range(3), r)]
+    n_ov = 25000 if ctx.thorough else 2500
+    for _ in range(n_ov):
+        if hangs >= 2:
+            break
+        parts = [(t, list(range(rng.randrange(2, 7)))) for t in range(3)]
+        members = [(m, rng.choice(subsets3)) for m in range(rng.randrange(2, 4))]
+        try:
+            r1 = sticky_round(A, parts, members, None, -1)
+            mem2 = [(m, (rng.choice(subsets3) if rng.random() < 0.25 else sb)) for m, sb in members] + \
+                   [(30 + j, rng.choice(subsets3)) for j in range(rng.randrange(1, 3))]
+            if rng.random() < 0.2 and len(mem2) > 2:
+                mem2.pop(rng.randrange(len(members)))
+            sticky_round(A, parts, mem2, tomap(r1), -1)
+        except AssignorHang:
+            hangs += 1
+        except Exception as e:  # noqa
+            ctx.violation(f"sticky-raises:{type(e).__name__}", f"sticky assignor raised {e!r} (overlapping subscriptions + join)",
+                          {"cases": [{"parts": parts, "members": members}]})
+    ctx.coverage["overlap_join_rounds"] = n_ov
+    # returning members with stale (older-generation) user data, identical subscriptions: the members present in
+    # the previous round are "old", the returning ones "new" — clause (c) between rounds 2 and 3
+    n_ret = 6000 if ctx.thorough else 600
+    for _ in range(n_ret):
+        if hangs >= 2:
+            break
+        try:
+            parts, m2, m3, r2, r3 = returning_chain(A, rng, True)
+            q("no-old-to-old", r2, r3, ",".join(str(m) for m, _ in m2),
+              {"clause": "c-returning", "parts": parts, "members": m2, "round3": m3})
+            n_pairs += 1
+        except AssignorHang:
+            hangs += 1
+        except Exception as e:  # noqa
+            ctx.violation(f"sticky-raises:{type(e).__name__}", f"sticky assignor raised {e!r} in a returning-member chain", {"cases": []})
     # chains of up to 5 rounds (identical subscriptions): leave / join / same, statements between consecutive rounds
     n_chain = 1500 if ctx.thorough else 150
     for _ in range(n_chain):
